@@ -36,6 +36,8 @@ type interpreter struct {
 	ex                 *Exec
 	runtimeErrorString types.Type
 	pools              map[*value]*poolState
+	syncMaps           map[*value]*omap
+	validateFailed     bool // outcome of the last (stubbed) gookit/validate run
 	ghost              map[string]value
 	events             []evRec
 	conc               *concState
@@ -616,6 +618,10 @@ func callMethod(i *interpreter, caller *frame, recv iface, name string, args ...
 	panic(engineErr{fmt.Sprintf("callMethod: %v has no method %s", recv.t, name)})
 }
 
+// opaquePkgs are modelled only through their stubs: running their real code on
+// the stubs' placeholder objects would be meaningless.
+var opaquePkgs = map[string]bool{"github.com/gookit/validate": true}
+
 func callSSA(i *interpreter, caller *frame, callpos token.Pos, fn *ssa.Function, args []value, env []value) value {
 	fr := &frame{i: i, caller: caller, fn: fn}
 	name := fn.String()
@@ -633,6 +639,9 @@ func callSSA(i *interpreter, caller *frame, callpos token.Pos, fn *ssa.Function,
 			if ext := verifIntrinsics[fn.Name()]; ext != nil {
 				return ext(fr, args)
 			}
+		}
+		if fn.Pkg != nil && opaquePkgs[fn.Pkg.Pkg.Path()] {
+			i.ex.unsupported("call into an opaque (stubbed) package without a stub: " + name)
 		}
 		if fn.Blocks == nil {
 			// synthetic wrappers get built on demand; true externals have no body
